@@ -17,8 +17,8 @@ import (
 
 func TestC10(t *testing.T) {
 	rec := ev.Get("C10")
-	rec.Rule("per case a synctest bubble: hello delivery plan (already buffered, or k chunks arriving at drawn virtual times), context kind (WithCancel / WithTimeout / WithDeadline / cancelled parent), cancellation slot relative to the hello's completion (while blocked, exactly at completion, immediately after NewConn returned, return+epsilon, expiry after return, never), GOMAXPROCS in {1,2,4,8,16}, optional caller deadline on the transport. After the return the case cancels, calls synctest.Wait() so the watcher goroutine has certainly run, then inspects the transport log and performs I/O. distinct = (plan, kind, slot, GOMAXPROCS); non-trivial = the context ends within the case")
-	rec.Mandatory("slot:blocked", "slot:after_return_now", "slot:after_return_eps", "slot:expire_after", "slot:never", "slot:at_completion", "buffered", "late", "gomaxprocs1", "gomaxprocs16")
+	rec.Rule("per case a synctest bubble: hello delivery plan (already buffered, or k chunks arriving at drawn virtual times), context kind (WithCancel / WithTimeout / WithDeadline / cancelled parent), cancellation slot relative to the hello's completion (while blocked, exactly at completion, immediately after NewConn returned, return+epsilon, expiry after return, never), GOMAXPROCS in {1,2,4,8,16}, optional caller deadline on the transport. After the return the case cancels, calls synctest.Wait() so the watcher goroutine has certainly run, then inspects the transport log and performs I/O, in half of the cases including a HelloRetryRequest round whose retried hello arrives a virtual second later. distinct = (plan, kind, slot, GOMAXPROCS); non-trivial = the context ends within the case")
+	rec.Mandatory("slot:blocked", "slot:after_return_now", "slot:after_return_eps", "slot:expire_after", "slot:never", "slot:at_completion", "buffered", "late", "gomaxprocs1", "gomaxprocs16", "hrr_after_context_end")
 	defer runtime.GOMAXPROCS(runtime.GOMAXPROCS(0))
 	rapid.Check(t, func(rt *rapid.T) {
 		sc := drawSealed(rt, false)
@@ -68,6 +68,20 @@ func TestC10(t *testing.T) {
 		// (every draw happens outside the bubble: rapid aborts a draw by panicking, which only
 		// the property's own goroutine recovers)
 		far := time.Duration(rapid.IntRange(1, 3600).Draw(rt, "far_s")) * time.Second
+		// later I/O may include a HelloRetryRequest round: the retried hello is read and
+		// decrypted long after the context has ended
+		withHRR := rapid.Bool().Draw(rt, "with_hrr")
+		ccsBefore := rapid.Bool().Draw(rt, "ccs_before_hello2")
+		in2 := sc.Tuple.Inner.Clone()
+		in2.Random = hello.GenBytes(rt, "random2", 32)
+		out2 := sc.Tuple.Outer.Clone()
+		out2.Random = hello.GenBytes(rt, "orandom2", 32)
+		msg2, err2 := sc.Sealer.SealOuter(out2, hello.Encode(hello.Compress(in2, sc.Tuple.RunStart, sc.Tuple.RunLen), make([]byte, sc.Tuple.Pad)), false)
+		if err2 != nil {
+			rt.Fatalf("harness: %v", err2)
+		}
+		hello2 := hello.Record(22, 0x0303, msg2)
+		wantInner2 := hello.Record(22, 0x0303, hello.ExpectedInner(in2, out2).Message())
 		runtime.GOMAXPROCS(procs)
 		var viol string
 		watch("C10", map[string]any{"keys": keysReplay([]*hello.Key{sc.Key}), "client_stream": hx(record), "slot": slot, "kind": kind}, func() {
@@ -164,16 +178,22 @@ func TestC10(t *testing.T) {
 					viol = fmt.Sprintf("NewConn returned at %v, hello complete at %v", ret, T1)
 					return
 				}
-				_, events := tr.Snapshot()
-				for _, e := range events {
-					if e.After && (e.Kind == "setdeadline" || e.Kind == "setreaddeadline" || e.Kind == "setwritedeadline") {
-						viol = fmt.Sprintf("%s(%v) on the transport %v after NewConn had returned successfully (slot %s, GOMAXPROCS %d)", e.Kind, e.DL.Sub(start), e.T.Sub(start.Add(ret)), slot, procs)
-						return
+				deadlinesUntouched := func() bool {
+					_, events := tr.Snapshot()
+					for _, e := range events {
+						if e.After && (e.Kind == "setdeadline" || e.Kind == "setreaddeadline" || e.Kind == "setwritedeadline") {
+							viol = fmt.Sprintf("%s(%v) on the transport %v after NewConn had returned successfully (slot %s, GOMAXPROCS %d)", e.Kind, e.DL.Sub(start), e.T.Sub(start.Add(ret)), slot, procs)
+							return false
+						}
 					}
+					rdl, wdl := tr.Deadlines()
+					if !rdl.Equal(callerDeadline) || !wdl.Equal(callerDeadline) {
+						viol = fmt.Sprintf("transport deadlines are (%v,%v) after NewConn returned, the caller had set %v", rdl, wdl, callerDeadline)
+						return false
+					}
+					return true
 				}
-				rdl, wdl := tr.Deadlines()
-				if !rdl.Equal(callerDeadline) || !wdl.Equal(callerDeadline) {
-					viol = fmt.Sprintf("transport deadlines are (%v,%v) after NewConn returned, the caller had set %v", rdl, wdl, callerDeadline)
+				if !deadlinesUntouched() {
 					return
 				}
 				// later I/O must work
@@ -181,6 +201,35 @@ func TestC10(t *testing.T) {
 				if e != nil || !sameRecord(got, hello.Record(22, 0x0303, sc.WantInner)) {
 					viol = fmt.Sprintf("Read after the context ended failed: %v", e)
 					return
+				}
+				if withHRR {
+					if _, e := c.Write(hrrRecord(sc.Tuple.Outer.SessionID)); e != nil {
+						viol = fmt.Sprintf("writing a HelloRetryRequest after the context ended failed: %v", e)
+						return
+					}
+					go func() {
+						time.Sleep(time.Second)
+						if ccsBefore {
+							tr.Feed(hello.Record(20, 0x0303, []byte{1}))
+						}
+						tr.Feed(hello2)
+					}()
+					if ccsBefore {
+						got, e = readOneRecord(c)
+						if e != nil || got[0] != 20 {
+							viol = fmt.Sprintf("reading the change_cipher_spec before the retried hello failed after the context ended: %v", e)
+							return
+						}
+					}
+					got, e = readOneRecord(c)
+					if e != nil || !sameRecord(got, wantInner2) {
+						viol = fmt.Sprintf("reading the retried hello (after a HelloRetryRequest) long after the context ended failed: %v", e)
+						return
+					}
+					synctest.Wait()
+					if !deadlinesUntouched() {
+						return
+					}
 				}
 				if _, e := c.Write(hello.Record(23, 0x0303, []byte("pong"))); e != nil {
 					viol = fmt.Sprintf("Write after the context ended failed: %v", e)
@@ -197,6 +246,9 @@ func TestC10(t *testing.T) {
 		})
 		if viol != "" {
 			ev.Violation(rt, "C10", map[string]any{"keys": keysReplay([]*hello.Key{sc.Key}), "client_stream": hx(record), "cuts": cuts, "times_ms": times, "slot": slot, "kind": kind, "gomaxprocs": procs, "tc": tc.String(), "caller_deadline": callerDL}, "%s", viol)
+		}
+		if withHRR && slot != "blocked" {
+			rec.Class("hrr_after_context_end")
 		}
 		cl := []string{"slot:" + slot, "kind:" + kind, fmt.Sprintf("gomaxprocs%d", procs)}
 		if nchunks == 0 {
